@@ -293,3 +293,100 @@ def _neighbor_triplets(interp, args, kwargs, node):
     out = VList(CompBag([Site("spec", [q, r], cond, elem)]), "list")
     out.setlike = True
     return out
+
+
+# ---- one-edit relation as an abstract predicate + the Lean lemmas L-step / L-hstep / L-n1 ------------------
+BOOL = z3.BoolSort()
+n1_f = z3.Function("n1", STR, STR, STR, BOOL)          # n1(x, alphabet, y): y is a one-edit variant of x with letters from alphabet
+n1h_f = z3.Function("n1h", STR, STR, STR, BOOL)        # single substitution by a different letter of the alphabet
+over_f = z3.Function("over", STR, STR, BOOL)           # over(s, alphabet): every character of s is in alphabet
+pred_f = z3.Function("lev_pred", STR, STR, STR)        # Skolem of L-step (B)
+predh_f = z3.Function("ham_pred", STR, STR, STR)
+
+
+def axioms_step(ctx, which):
+    if ("ax", which) in ctx.axioms_added:
+        return
+    ctx.axioms_added.add(("ax", which))
+    x, y, y2, A = [z3.Const(n, STR) for n in ("x!s", "y!s", "y2!s", "A!s")]
+    if which == "step":
+        axioms(ctx, "lev-basic")
+        ctx.assume_global(z3.ForAll([x, y, y2, A], z3.Implies(n1_f(y, A, y2), lev_f(x, y2) <= lev_f(x, y) + 1),
+                                    patterns=[z3.MultiPattern(n1_f(y, A, y2), lev_f(x, y))]),
+                          "lemma:L-step A (Lean) one edit changes the distance to any x by at most 1")
+        ctx.assume_global(z3.ForAll([y, y2, A], z3.Implies(n1_f(y, A, y2), z3.And(z3.Implies(over_f(y, A), over_f(y2, A)), y != y2)),
+                                    patterns=[n1_f(y, A, y2)]),
+                          "lemma:L-n1 (Lean) + alphabet: a one-edit variant over the alphabet of a string over the alphabet is over it, and differs")
+        p = pred_f(x, y)
+        ctx.assume_global(z3.ForAll([x, y, A], z3.Implies(z3.And(over_f(x, A), over_f(y, A), lev_f(x, y) >= 1),
+                                                          z3.And(n1_f(p, A, y), lev_f(x, p) <= lev_f(x, y) - 1, over_f(p, A))),
+                                    patterns=[z3.MultiPattern(pred_f(x, y), over_f(y, A))]),
+                          "lemma:L-step B (Lean) lev x y >= 1 -> some z over the same letters with lev x z <= lev x y - 1 and one edit z -> y")
+    elif which == "hstep":
+        axioms_h(ctx)
+        L = z3.Length
+        ctx.assume_global(z3.ForAll([x, y, y2, A], z3.Implies(z3.And(n1h_f(y, A, y2), L(x) == L(y)),
+                                                              ham_f(x, y2) <= ham_f(x, y) + 1),
+                                    patterns=[z3.MultiPattern(n1h_f(y, A, y2), ham_f(x, y))]),
+                          "lemma:L-hstep A (Lean) one substitution changes the Hamming distance to any x by at most 1")
+        ctx.assume_global(z3.ForAll([y, y2, A], z3.Implies(n1h_f(y, A, y2),
+                                                           z3.And(L(y) == L(y2), z3.Implies(over_f(y, A), over_f(y2, A)), y != y2)),
+                                    patterns=[n1h_f(y, A, y2)]),
+                          "lemma:L-hstep (Lean) a substitution keeps the length, stays over the alphabet, and changes the string")
+        p = predh_f(x, y)
+        ctx.assume_global(z3.ForAll([x, y, A], z3.Implies(z3.And(over_f(x, A), over_f(y, A), L(x) == L(y), ham_f(x, y) >= 1),
+                                                          z3.And(n1h_f(p, A, y), ham_f(x, p) <= ham_f(x, y) - 1, over_f(p, A), L(p) == L(x))),
+                                    patterns=[z3.MultiPattern(predh_f(x, y), over_f(y, A))]),
+                          "lemma:L-hstep B (Lean) ham x y >= 1 -> some z with ham x z <= ham x y - 1 and one substitution z -> y")
+
+
+@S.spec("over_alphabet")
+def _over_alphabet(interp, args, kwargs, node):
+    return VBool(over_f(args[0].term, args[1].term))
+
+
+def _pred_set(interp, pred):
+    r = VSet(pred=pred)
+    r.elem_kind = T.Str
+    return r
+
+
+@S.spec("one_edit_set")
+def _one_edit_set(interp, args, kwargs, node):
+    """the strings yielded by levenshtein_neighbors(x, alphabet), as an abstract set (each once)"""
+    x, A = args
+    axioms_step(interp.ctx, "step")
+    xt, At = x.term, A.term
+    return _pred_set(interp, lambda y: n1_f(xt, At, y.term))
+
+
+@S.spec("one_sub_set")
+def _one_sub_set(interp, args, kwargs, node):
+    x, A = args
+    axioms_step(interp.ctx, "hstep")
+    xt, At = x.term, A.term
+    return _pred_set(interp, lambda y: n1h_f(xt, At, y.term))
+
+
+@S.spec("lev_pred")
+def _lev_pred(interp, args, kwargs, node):
+    axioms_step(interp.ctx, "step")
+    return VStr(pred_f(args[0].term, args[1].term))
+
+
+@S.spec("ham_pred")
+def _ham_pred(interp, args, kwargs, node):
+    axioms_step(interp.ctx, "hstep")
+    return VStr(predh_f(args[0].term, args[1].term))
+
+
+@S.spec("n1")
+def _n1(interp, args, kwargs, node):
+    axioms_step(interp.ctx, "step")
+    return VBool(n1_f(args[0].term, args[1].term, args[2].term))
+
+
+@S.spec("n1h")
+def _n1h(interp, args, kwargs, node):
+    axioms_step(interp.ctx, "hstep")
+    return VBool(n1h_f(args[0].term, args[1].term, args[2].term))
